@@ -321,3 +321,9 @@ Proof.
     lia.
   - unfold uniform_block. cbn [fst]. rewrite refine_p_length. cbn. lia.
 Qed.
+
+(* ------------------------------------------------------------------ tiling checks in the form used by the explicit principle *)
+Lemma tri_uniform_tiles : tri_tiles_ok tri_W gen_tri_templates = true.
+Proof. vm_compute. reflexivity. Qed.
+Lemma tet_uniform_tiles : forallb (fun c => tet_tiles_ok tet_W (tet_family c)) [0; 1; 2] = true.
+Proof. vm_compute. reflexivity. Qed.
